@@ -71,6 +71,7 @@ class Translator:
         self.ctor_decls = {}
         self.locals, self.ref_locals, self.alias = {}, set(), {}
         self.pre, self.no_hoist, self.called = [], False, False
+        self.rec_decls = {}
         self.global_arrays = {}
         self.global_fn_deps = set()
         self.uses_tabs = False
@@ -173,7 +174,10 @@ class Translator:
         return None, None
 
     def full_decl(self, ref):
-        return self.db.byid.get(ref.get('id')) if ref else None
+        d = self.db.byid.get(ref.get('id')) if ref else None
+        if d is not None and ref.get('name') and d.get('name') and d['name'] != ref['name']:
+            raise ExtractError('AST cross-reference mismatch: %s vs %s' % (ref.get('name'), d.get('name')))
+        return d
 
     def fn_cname(self, ref):
         d = self.full_decl(ref)
@@ -337,9 +341,25 @@ class Translator:
         ip, fp, ex = mm.group(1) or '0', mm.group(2) or '', int(mm.group(3) or 0)
         num = int(ip + fp)
         den_exp = len(fp) - ex
-        if den_exp >= 0:
-            return 'RQ(%d, 1%s, %s)' % (num, '0' * den_exp, s)
-        return 'RQ(%d%s, 1, %s)' % (num, '0' * (-den_exp), s)
+        den = 10 ** den_exp if den_exp >= 0 else 1
+        if den_exp < 0:
+            num *= 10 ** (-den_exp)
+        if num < 2 ** 62 and den < 2 ** 62:
+            return 'RQ(%d, %d, %s)' % (num, den, s)
+        return 'RQ_BIG(%s, %s, %s)' % (self.bigint(num), self.bigint(den), s)
+
+    @staticmethod
+    def bigint(v):
+        """an integer beyond 64 bits as exact real arithmetic over 18-digit chunks"""
+        chunks = []
+        while v:
+            chunks.append(v % 10 ** 18)
+            v //= 10 ** 18
+        chunks = chunks[::-1] or [0]
+        txt = '((real_t)%dL)' % chunks[0]
+        for c in chunks[1:]:
+            txt = '(%s * ((real_t)1000000000000000000L) + ((real_t)%dL))' % (txt, c)
+        return txt
 
     def e_CXXNullPtrLiteralExpr(self, n, i):
         return '0'
@@ -401,6 +421,8 @@ class Translator:
         if n.get('isArrow'):
             if base == 'self':
                 return 'self->' + name
+            if base.startswith('OPT_VAL('):
+                return base + '.' + name
             return '(%s)->%s' % (base, name)
         return self._arrow(base) + name
 
@@ -541,6 +563,20 @@ class Translator:
                 vals.append(self.e(x))
             vals += ['0'] * (kind[2] - len(vals))
             return self.mk_struct(ct, ['a[%d]' % j for j in range(kind[2])], vals)
+        if kind and kind[0] == 'rec':
+            rec = self.rec_decls.get(ct)
+            vals = []
+            for j, x in enumerate(i):
+                if x.get('kind') == 'CXXDefaultInitExpr':
+                    fname = kind[1][j][1]
+                    fd = [k for k in (rec or {}).get('inner', []) if k.get('kind') == 'FieldDecl' and k.get('name') == fname]
+                    init = [y for y in (fd[0].get('inner', []) if fd else []) if y and is_expr(y)]
+                    if not init:
+                        self.abort(x, 'default member initialiser of %s.%s' % (ct, fname))
+                    vals.append(self.e(init[-1]))
+                else:
+                    vals.append(self.e(x))
+            return self.mk_struct(ct, [f[1] for f in kind[1]][:len(vals)], vals)
         vals = [self.e(x) for x in i]
         if kind and kind[0] == 'tup':
             return self.mk_struct(ct, ['_%d' % j for j in range(len(vals))], vals)
@@ -880,12 +916,28 @@ class Translator:
             return self.addr(a, x)
         return x
 
+    @staticmethod
+    def qual_name(q):
+        """'double Opm::X::get<double>(unsigned long) const' -> 'Opm::X::get<double>'"""
+        from .astdb import _top_level_paren
+        p = _top_level_paren(q)
+        head = q[:p] if p >= 0 else q
+        depth, cut = 0, 0
+        for i, ch in enumerate(head):
+            if ch == '<':
+                depth += 1
+            elif ch == '>':
+                depth -= 1
+            elif ch == ' ' and depth == 0:
+                cut = i + 1
+        return head[cut:]
+
     def opaque_call(self, n, q, full, selfptr, args):
         """memoised uninterpreted function: equal arguments give equal results, nothing else is known"""
         rt = self.ty(n)
         if rt not in SCALAR_C:
             self.abort(n, 'opaque getter %s returning non-scalar %s' % (q, rt))
-        cn = 'OPQ_' + ident(re.sub(r'\(.*', '', q))
+        cn = 'OPQ_' + ident(self.qual_name(q))
         ats = []
         if selfptr is not None:
             ats.append('const void *')
@@ -1103,6 +1155,15 @@ class Translator:
             self.out('%s %s = %s;' % (ct, name, self.addr(init[-1], tgt)))
             return
         ct = self.ty(v)
+        if v['id'] in self.exported:
+            # local of the sliced region that the slice hands back: assignment to the out-parameter
+            en = self.exported[v['id']]
+            self.locals[v['id']] = en
+            self.ref_locals.add(v['id'])
+            if init:
+                self.out('(*%s) = %s;' % (en, self.e(init[-1])))
+                self.propagate()
+            return
         self.locals[v['id']] = name
         if v.get('storageClass') == 'static' and 'const' not in qt:
             self.abort(v, 'mutable static local')
@@ -1409,6 +1470,22 @@ class Translator:
         self.ind += 1
         self.s(inner[-1])
 
+    def s_GotoStmt(self, n, inner):
+        tgt = self.db.byid.get(n.get('targetLabelDeclId'))
+        name = tgt.get('name') if tgt else None
+        if not name:
+            for x in walk(self.cur_body):
+                if x.get('kind') == 'LabelStmt' and x.get('declId') == n.get('targetLabelDeclId'):
+                    name = x.get('name')
+        if not name:
+            self.abort(n, 'goto with unknown label')
+        self.out('goto %s;' % name)
+
+    def s_LabelStmt(self, n, inner):
+        self.out('%s: ;' % n['name'])
+        for x in inner:
+            self.s(x)
+
     def s_CXXTryStmt(self, n, inner):
         self.abort(n, 'try/catch')
 
@@ -1423,6 +1500,15 @@ class Translator:
                 p2 = self.db.byid.get(par['parentDeclContextId'], p2)
             par = p2
         return par
+
+    def is_static(self, d):
+        x, n = d, 0
+        while x is not None and n < 8:
+            if x.get('storageClass') == 'static':
+                return True
+            x = self.db.byid.get(x.get('previousDecl'))
+            n += 1
+        return False
 
     def method_self_type(self, d):
         par = self.class_of(d)
@@ -1449,6 +1535,7 @@ class Translator:
             if k.get('kind') == 'FieldDecl':
                 fields.append((self.tm.tname(k['type']), k['name']))
         self.tm.add_record(cname, fields)
+        self.rec_decls['struct ' + cname] = rec
         return 'struct ' + cname
 
     def function(self, d, cname):
@@ -1465,10 +1552,12 @@ class Translator:
         self.called = False
         self.pre, self.no_hoist = [], False
         self.ghost_used = set()
+        self.exported = {}
+        self.cur_body = d
         rt = d['type']['qualType']
         p = rt.find('(')
         rts = rt[:p].strip()
-        is_method = d['kind'] in ('CXXMethodDecl', 'CXXConstructorDecl') and d.get('storageClass') != 'static'
+        is_method = d['kind'] in ('CXXMethodDecl', 'CXXConstructorDecl') and not self.is_static(d)
         if d['kind'] == 'CXXConstructorDecl':
             f.ret = 'void'
             self.ret_is_ref = False
@@ -1526,6 +1615,164 @@ class Translator:
         for (gc, anchor) in self.ghosts:
             if gc == cname and anchor not in self.ghost_used:
                 raise ExtractError('%s: ghost anchor %r does not exist in the extracted function' % (f.qual, anchor))
+        f.text = f.proto() + '\n' + '\n'.join(self.lines) + '\n'
+        self.cur = None
+        return f
+
+    def proto_only(self, d, cname):
+        """a function of another translation unit: signature only (it is always replaced by its contract)"""
+        f = CFunc()
+        self.cur = f
+        f.cname, f.qual = cname, d.get('_qual', d.get('name'))
+        f.file, f.line = d['loc'].get('_file'), d['loc'].get('_line')
+        rt = d['type']['qualType']
+        rts = rt[:rt.find('(')].strip()
+        f.ret = self.tm.c(rts)
+        if d['kind'] == 'CXXMethodDecl' and d.get('storageClass') != 'static':
+            raise ExtractError('extern member functions are not supported: ' + f.qual)
+        for pd in d.get('inner', []):
+            if pd.get('kind') != 'ParmVarDecl':
+                continue
+            qt = pd['type']['qualType']
+            name = pd.get('name') or 'verif_unnamed%d' % len(f.params)
+            if self.by_pointer(qt):
+                f.params.append((self.tm.tname(pd['type']), name, True))
+            else:
+                f.params.append((self.tm.tname(pd['type']).rstrip(' *') if qt.rstrip().endswith('&') else self.tm.tname(pd['type']), name, False))
+        f.text = None
+        self.cur = None
+        return f
+
+    def loop_nodes(self, d):
+        out = []
+        for x in walk(d):
+            k = x.get('kind')
+            if k in ('ForStmt', 'WhileStmt', 'CXXForRangeStmt'):
+                out.append(x)
+            elif k == 'DoStmt':
+                c = [y for y in x.get('inner', []) if y][-1]
+                if not (c.get('kind') == 'CXXBoolLiteralExpr' and not c['value']):
+                    out.append(x)
+        return out
+
+    def slice_function(self, d, cname, spec, exports):
+        """a REGION of a large function as a function of its own: `loop K from decl:<var> to assign:<member>`.
+        The region's free variables become parameters (by address if written or non-scalar); the listed
+        locals declared inside the region become out-parameters."""
+        m = re.fullmatch(r'from decl:(\w+)(?:#(\d+))? to assign:(\w+)', spec.strip())
+        if not m:
+            raise ExtractError('bad slice description: ' + spec)
+        v0, occ, m1 = m.group(1), int(m.group(2) or 0), m.group(3)
+        # the compound statement that directly contains the occ-th declaration of v0
+        found = []
+        for x in walk(d):
+            if x.get('kind') == 'CompoundStmt':
+                for st in x.get('inner', []):
+                    if st and st.get('kind') == 'DeclStmt' and any(v.get('name') == v0 for v in st.get('inner', [])):
+                        found.append(x)
+        if occ >= len(found):
+            raise ExtractError('%s: slice anchor decl:%s#%d not found (the code was restructured)' % (cname, v0, occ))
+        body = found[occ]
+        stmts = [x for x in body.get('inner', []) if x]
+        i0 = i1 = None
+        for i, st in enumerate(stmts):
+            if i0 is None and st.get('kind') == 'DeclStmt' and any(v.get('name') == v0 for v in st.get('inner', [])):
+                i0 = i
+            x = st
+            while x.get('kind') in ('ExprWithCleanups',) and x.get('inner'):
+                x = x['inner'][0]
+            if (x.get('kind') == 'BinaryOperator' and x.get('opcode') == '=') or x.get('kind') == 'CompoundAssignOperator':
+                lhs = x['inner'][0]
+                if (lhs.get('kind') == 'MemberExpr' and lhs.get('name') == m1) or \
+                        (lhs.get('kind') == 'DeclRefExpr' and lhs['referencedDecl'].get('name') == m1):
+                    i1 = i
+        if i0 is None or i1 is None or i1 < i0:
+            raise ExtractError('%s: slice anchors decl:%s / assign:%s not found (the code was restructured)' % (cname, v0, m1))
+        region = stmts[i0:i1 + 1]
+        f = CFunc()
+        self.cur = f
+        f.cname, f.qual = cname, (d.get('_qual', d.get('name')) + ' [slice %s]' % spec)
+        f.file = d['loc'].get('_file')
+        f.line = region[0].get('range', {}).get('begin', {}).get('_line')
+        src = b''.join(self.db.source_bytes(x) or b'' for x in region)
+        f.sha = hashlib.sha256(src).hexdigest()
+        self.locals, self.ref_locals, self.alias = {}, set(), {}
+        self.used_names = {'self'}
+        self.lines, self.ind, self.brk = [], 0, []
+        self.called = False
+        self.pre, self.no_hoist = [], False
+        self.ghost_used = set()
+        self.exported = {}
+        self.cur_body = d
+        self.cur_record = None
+        self.ret_is_ref = False
+        f.ret = 'void'
+        declared = {}
+        for st in region:
+            for x in walk(st):
+                if x.get('kind') in ('VarDecl', 'BindingDecl'):
+                    declared[x['id']] = x
+        fn_locals = {x['id']: x for x in walk(d) if x.get('kind') in ('VarDecl', 'ParmVarDecl')}
+        free, written = [], set()
+        for st in region:
+            for x in walk(st):
+                if x.get('kind') == 'CXXThisExpr':
+                    raise ExtractError('%s: slice uses `this`' % cname)
+                if x.get('kind') == 'DeclRefExpr':
+                    rid = x['referencedDecl']['id']
+                    if rid in fn_locals and rid not in declared and rid not in free:
+                        free.append(rid)
+                if x.get('kind') in ('BinaryOperator', 'CompoundAssignOperator') and \
+                        (x.get('opcode') == '=' or x['kind'] == 'CompoundAssignOperator'):
+                    for y in walk(x['inner'][0]):
+                        if y.get('kind') == 'DeclRefExpr':
+                            written.add(y['referencedDecl']['id'])
+                            break
+                if x.get('kind') == 'UnaryOperator' and x.get('opcode') in ('++', '--'):
+                    for y in walk(x['inner'][0]):
+                        if y.get('kind') == 'DeclRefExpr':
+                            written.add(y['referencedDecl']['id'])
+                            break
+        const_defs, const_params = [], []
+        for rid in free:
+            v = fn_locals[rid]
+            name = v['name']
+            self.used_names.add(name)
+            self.locals[rid] = name
+            ct = self.tm.tname(v['type'])
+            init = [x for x in v.get('inner', []) if x and is_expr(x)]
+            if v.get('kind') == 'VarDecl' and 'const' in v['type']['qualType'] and init and rid not in written and \
+                    all(y.get('kind') in ('FloatingLiteral', 'IntegerLiteral', 'ImplicitCastExpr', 'ParenExpr',
+                                          'BinaryOperator', 'UnaryOperator', 'ExprWithCleanups') for y in walk(init[-1])):
+                # a constant of the enclosing function: carried into the slice with its own initialiser
+                cb = ct.rstrip(' *').rstrip()
+                const_defs.append('%s %s = %s; *verif_c_%s = %s;' % (cb, name, self.e(init[-1]), name, name))
+                const_params.append((cb + ' *', 'verif_c_' + name, True))
+                continue
+            base = ct.rstrip(' *').rstrip()
+            if base in SCALAR_C and rid not in written and base != 'c_opaque':
+                f.params.append((base, name, False))
+            else:
+                self.ref_locals.add(rid)
+                f.params.append((base + ' *', name, True))
+        for nm in exports:
+            cands = [v for v in declared.values() if v.get('name') == nm]
+            if len(cands) != 1:
+                raise ExtractError('%s: exported local %s not declared exactly once in the slice' % (cname, nm))
+            v = cands[0]
+            self.exported[v['id']] = nm
+            self.used_names.add(nm)
+            f.params.append((self.ty(v) + ' *', nm, True))
+        f.params += const_params
+        self.drop_ids, self.sinks = self.droppable_strings(body)
+        self.out('{')
+        self.ind += 1
+        for cd in const_defs:
+            self.out(cd)
+        for st in region:
+            self.s(st)
+        self.ind -= 1
+        self.out('}')
         f.text = f.proto() + '\n' + '\n'.join(self.lines) + '\n'
         self.cur = None
         return f
